@@ -1,3 +1,5 @@
 INIT Init
 NEXT Next
 CONSTANT ReownAtApply = TRUE
+CONSTANT ResetTracking = TRUE
+CONSTANT ItemWritesBack = FALSE
